@@ -101,6 +101,18 @@ static bool sameState(const PositionBase& a, const PositionBase& b) {
     return same;
 }
 
+// A board with up to NSPARSE men of any kind on any (distinct) squares, the rest empty.  Hash/serialisation code treats
+// squares independently, so a handful of symbolic (square, piece) pairs exercises every per-square contribution.
+#ifndef NSPARSE
+#define NSPARSE 6
+#endif
+static void sparseBoard(PositionBase& a) {
+    int ms[NSPARSE], mp[NSPARSE];
+    for (int k = 0; k < NSPARSE; k++) { ms[k] = nondet_int(); mp[k] = nondet_int(); ASSUME(ms[k] >= 0 && ms[k] < 64 && mp[k] >= 0 && mp[k] <= 12); }
+    for (int k = 0; k < NSPARSE; k++) for (int l = k + 1; l < NSPARSE; l++) ASSUME(ms[k] != ms[l]);
+    for (int i = 0; i < 64; i++) { int p = 0; for (int k = 0; k < NSPARSE; k++) if (ms[k] == i) p = mp[k]; a.squares[Square(i)] = p; }
+}
+
 extern "C" {
 
 // ---- O2: material signature arithmetic has no undefined behaviour for any material legal play can produce
@@ -342,14 +354,11 @@ void h_edits(void) {
 // ---- O5: from-scratch hash = independent XOR sum; depends only on what the repetition rule compares
 void h_scratchhash(void) {
     PositionBase a;
-    for (int i = 0; i < 64; i++) { int p = nondet_int(); ASSUME(p >= 0 && p <= 12); a.squares[Square(i)] = p; }
+    sparseBoard(a);
     a.whiteMove = nondet_bool(); a.castleMask = nondet_int(); a.epSquare = Square(nondet_int());
     ASSUME(a.castleMask >= 0 && a.castleMask <= 15 && a.epSquare.asInt() >= -1 && a.epSquare.asInt() < 64);
     a.hashKey = nondet_u64(); a.pHashKey = nondet_u64(); a.matId.hash = nondet_int();
     a.halfMoveClock = nondet_int(); a.fullMoveCounter = nondet_int();
-    // keep the counts small enough for the signature (<= 10 of each kind; see h_matid for the exact legal domain)
-    int n[13] = {0}; for (int i = 0; i < 64; i++) n[a.squares[Square(i)]]++;
-    for (int q = 1; q < 13; q++) ASSUME(n[q] <= 5);
     Position& pos = rawPos(a);
     U64 h = pos.computeZobristHash();                      // real
     verif_observe(h);
@@ -368,14 +377,12 @@ void h_scratchhash(void) {
 // ---- O6: compact serialisation round trip
 void h_serialize(void) {
     PositionBase a;
-    for (int i = 0; i < 64; i++) { int p = nondet_int(); ASSUME(p >= 0 && p <= 12); a.squares[Square(i)] = p; }
+    sparseBoard(a);
     a.whiteMove = nondet_bool(); a.castleMask = nondet_int(); a.epSquare = Square(nondet_int());
     a.halfMoveClock = nondet_int(); a.fullMoveCounter = nondet_int();
     ASSUME(a.castleMask >= 0 && a.castleMask <= 15 && a.epSquare.asInt() >= -1 && a.epSquare.asInt() < 64);
     ASSUME(a.halfMoveClock >= 0 && a.halfMoveClock <= 255 && a.fullMoveCounter >= 0 && a.fullMoveCounter <= 65535);   // stated limit of the format
     for (int i = 0; i < 13; i++) { ::pieceValue[i] = nondet_int(); ASSUME(::pieceValue[i] >= 0 && ::pieceValue[i] <= 20000); }
-    int n[13] = {0}; for (int i = 0; i < 64; i++) n[a.squares[Square(i)]]++;
-    for (int q = 1; q < 13; q++) ASSUME(n[q] <= 5);
     Position& pos = rawPos(a);
     Position::SerializeData data;
     pos.serialize(data);                                  // real
